@@ -175,6 +175,9 @@ def make_crop(cs):
     if cs.get("gddscale"):
         kw.update(scaled_gdd_kwargs(cs["name"], cs["gddscale"]))
     kw.update(cs.get("kw") or {})
+    if cs.get("numpy"):
+        # the same numbers as numpy scalars (elements of a calibration / parameter array): a valid way to pass them
+        kw = {k: (np.int64(v) if isinstance(v, int) and not isinstance(v, bool) else np.float64(v) if isinstance(v, float) else v) for k, v in kw.items()}
     return Crop(cs["name"], planting_date=cs["planting"], harvest_date=cs.get("harvest"), **kw)
 
 
